@@ -2578,6 +2578,111 @@ def lower_tuples_and_records(repo, rebuild):
     return len(changed)
 
 
+# ---------------------------------------------------------------------------------------------------------------------
+# tail duplication: the common tail of an if / elif chain whose branches only select constants for it is moved back into the branches
+
+
+def _chain_branches(ifst):
+    """[(test or None, body list)] of an if / elif / else chain; the last entry has test None when there is an else."""
+    out = []
+    cur = ifst
+    while True:
+        out.append((cur.test, cur.body))
+        if len(cur.orelse) == 1 and isinstance(cur.orelse[0], ast.If):
+            cur = cur.orelse[0]
+            continue
+        if cur.orelse:
+            out.append((None, cur.orelse))
+        return out, bool(cur.orelse)
+
+
+def _falls_through(body):
+    return not (body and isinstance(body[-1], (ast.Raise, ast.Return, ast.Continue, ast.Break)))
+
+
+def _selector_value(v, fn_stored):
+    if isinstance(v, ast.Constant):
+        return True
+    d = dotted(v)
+    return d is not None and d.split(".")[0] not in fn_stored and d.split(".")[0] not in ("self", "cls")
+
+
+def _tail_duplicate_block(block, fnode, fn_stored):
+    n = 0
+    for i, st in enumerate(block):
+        if not isinstance(st, ast.If) or i + 1 >= len(block):
+            continue
+        branches, has_else = _chain_branches(st)
+        if not has_else or len(branches) < 2:
+            continue
+        live = [b for _t, b in branches if _falls_through(b)]
+        if len(live) < 2:
+            continue
+        # names every falling-through branch assigns at its top level, at least twice to a constant, with two different values
+        cands = None
+        for b in live:
+            names = {s_.targets[0].id for s_ in b if isinstance(s_, ast.Assign) and len(s_.targets) == 1 and isinstance(s_.targets[0], ast.Name)}
+            cands = names if cands is None else cands & names
+        sel = set()
+        for v in sorted(cands or ()):
+            vals = set()
+            for b in live:
+                last = [s_ for s_ in b if isinstance(s_, ast.Assign) and len(s_.targets) == 1 and isinstance(s_.targets[0], ast.Name) and s_.targets[0].id == v][-1]
+                if _selector_value(last.value, fn_stored):
+                    vals.add(unparse(last.value))
+            if len(vals) >= 2:
+                sel.add(v)
+        tail = block[i + 1:]
+        if not sel or len(tail) > 30 or any(isinstance(x, _FUNC + (ast.ClassDef,)) for t in tail for x in ast.walk(t)):
+            continue
+        if not any(isinstance(x, ast.Name) and x.id in sel and isinstance(x.ctx, ast.Load) for t in tail for x in ast.walk(t)):
+            continue
+        for b in live:
+            b.extend(clone(t) for t in tail)
+            # the selected constants are put where they are used
+            for v in sorted(sel):
+                idxs = [k for k, s_ in enumerate(b) if isinstance(s_, ast.Assign) and len(s_.targets) == 1 and isinstance(s_.targets[0], ast.Name) and s_.targets[0].id == v]
+                if len(idxs) != 1 or not _selector_value(b[idxs[0]].value, fn_stored):
+                    continue
+                k = idxs[0]
+                if any(isinstance(x, ast.Name) and x.id == v and isinstance(x.ctx, (ast.Store, ast.Del)) for t in b[k + 1:] for x in ast.walk(t)):
+                    continue
+                val = b[k].value
+                sub = _SubstName({v: val})
+                b[k + 1:] = [sub.visit(t) for t in b[k + 1:]]
+                del b[k]
+        del block[i + 1:]
+        n += 1
+        break
+    return n
+
+
+def tail_duplication(repo, rebuild, only_rels=None):
+    changed = set()
+    for rel, m in repo.modules.items():
+        if only_rels is not None and rel not in only_rels:
+            continue
+        n = 0
+        for f in [x for x in ast.walk(m.tree) if isinstance(x, _FUNC)]:
+            fn_stored = _stored_names([f]) | {a.arg for a in ast.walk(f.args) if isinstance(a, ast.arg)}
+            for _round in range(6):
+                k = 0
+                for holder in list(ast.walk(f)):
+                    for field in ("body", "orelse", "finalbody"):
+                        blk = getattr(holder, field, None)
+                        if isinstance(blk, list) and blk and isinstance(blk[0], ast.stmt):
+                            k += _tail_duplicate_block(blk, f, fn_stored)
+                n += k
+                if not k:
+                    break
+        if n:
+            ast.fix_missing_locations(m.tree)
+            changed.add(rel)
+    if changed:
+        rebuild(repo, changed)
+    return len(changed)
+
+
 def _constants_only_class(node):
     if node.bases or node.keywords or node.decorator_list:
         return False
@@ -2743,6 +2848,8 @@ def normalize(repo, rebuild):
                 ast.fix_missing_locations(repo.modules[rel].tree)
             rebuild(repo, dropped)
     coalesce_inlined_copies(repo, rebuild)
+    if tail_duplication(repo, rebuild):
+        notes.append("common tail of an if / elif chain whose branches select constants for it moved back into the branches")
     fold_literals(repo, rebuild)
     lower_tuples_and_records(repo, rebuild)
     coalesce_inlined_copies(repo, rebuild)
